@@ -15,6 +15,7 @@ import Desync.Model.ReadSeeker
 import Desync.Model.Sparse
 import Desync.Model.HttpHandler
 import Desync.Model.LocalStore
+import Desync.Model.LocalVerify
 import Desync.Model.SftpStore
 import Desync.Model.S3Store
 import Desync.Model.Dedup
@@ -475,6 +476,21 @@ def cmdPruneRun (a : Args) : String :=
   | .ok d => "ok " ++ filesStr d
   | .failed d => "failed " ++ filesStr d
 
+/-- `verify.run unc= repair= files=dirhex/namehex/v;…` (files in walk order; v = 1: the content is what the verifying
+    constructor accepts for the ID the file's own name spells): remaining files and report lines, sorted -/
+def cmdVerifyRun (a : Args) : String :=
+  let files : StoreFiles :=
+    if (a.get "files").isEmpty then [] else
+    ((a.get "files").splitOn ";").filterMap fun p =>
+      match p.splitOn "/" with
+      | [d, n, v] => do let d ← ofHex d; let n ← ofHex n; pure ((d, n), if v == "1" then [1] else [0])
+      | _ => none
+  let (d, lines) := verify (a.bool "unc") (a.bool "repair") (fun _ content => content == [1]) files
+  let ls := lines.map fun l => match l with
+    | .invalid id removed => "i:" ++ toHex id ++ (if removed then ":removed" else "")
+    | .error id => "e:" ++ toHex id
+  "files=" ++ filesStr (d.map (·.1)) ++ " lines=" ++ String.intercalate "," (ls.toArray.qsort (· < ·)).toList
+
 /-- `dedup.accept ids=1,1,2 events=c:0,c:1,u:0:7,m:0,d:0,w:1` : validate an event trace recorded
     from the implementation against the machine; prints the kind each `call` resolved to and
     every caller's final state -/
@@ -593,6 +609,7 @@ def runLine (l : String) : String :=
     | "store.name" => cmdStoreName a
     | "prune.classify" => cmdPruneClassify a
     | "prune.run" => cmdPruneRun a
+    | "verify.run" => cmdVerifyRun a
     | "http.chunk" => cmdHttp false a
     | "http.index" => cmdHttp true a
     | "sparse.ops" => cmdSparseOps a
